@@ -1,14 +1,17 @@
 (** C07 -- Bmad-X tracking agrees with the linear map to first order and is an exact flow.
     Proved here: the Bmad-X drift (all clauses), the zero-voltage transverse deflecting cavity, and the Bmad-X quadrupole
     (transverse block = linear map at delta = 0, exact flow incl. z and num_steps independence for eps := 0, determinant defect
-    of the coded eps = 2^-52, on-axis particle = Bmad-X drift, offset round trip, R56).  Dipole Bmad-X tracking is NOT
-    modelled in Coq: its clauses are tested on the implementation only (harness/props/c07.py).
+    of the coded eps = 2^-52, on-axis particle = Bmad-X drift, offset round trip, R56), and the Bmad-X dipole (fringe kicks = edge
+    matrices of the linear map, body = exact motion in a uniform field, closed design orbit, equality of the two exit-position
+    branches; section at the end).
     Models: Bmadx/DriftX.v (sqrt_one, track_a_drift, Drift._track_bmadx), Bmadx/Tdc.v, Bmadx/Coords.v, Bmadx/QuadX.v
-    (calculate_quadrupole_coefficients, low_energy_z_correction, Quadrupole._track_bmadx); linear map: Optics/Maps.v. *)
+    (calculate_quadrupole_coefficients, low_energy_z_correction, Quadrupole._track_bmadx), Bmadx/BendX.v (Dipole._track_bmadx,
+    _bmadx_fringe_linear, _bmadx_body, sinc, cosc); linear map: Optics/Maps.v. *)
 From Coq Require Import Reals.
 From Coquelicot Require Import Coquelicot.
 From Cheetah Require Import Base.Mat Optics.Maps Bmadx.Coords Bmadx.DriftX Bmadx.DriftXProofs Bmadx.DriftXJac Bmadx.Tdc Bmadx.TdcProofs
-  Bmadx.QuadX Bmadx.QuadXProofs Bmadx.QuadXFlow Bmadx.QuadXJac.
+  Bmadx.QuadX Bmadx.QuadXProofs Bmadx.QuadXFlow Bmadx.QuadXJac
+  Bmadx.BendX Bmadx.BendXProofs Bmadx.BendXGeom Bmadx.BendXOrbit Bmadx.BendXRefuted.
 Open Scope R_scope.
 
 (** sqrt_one(x) = sqrt(1+x) - 1 *)
@@ -171,6 +174,120 @@ Theorem C07_quadx_branches_resolved : forall fx fy ser n L k1 ox oy tilt E0 m v,
   quad_bmadx_track n L k1 ox oy tilt E0 m v = quad_bmadx_track_b fx fy ser n L k1 ox oy tilt E0 m v.
 Proof. exact quad_track_resolved. Qed.
 
+(* ================================================================== Bmad-X dipole (model: Bmadx/BendX.v) *)
+
+(** (a) Dipole._bmadx_fringe_linear is linear in (x, y): as a map on (x,px,y,py,z,pz,1) it is the edge matrix of the linear map,
+    edge_map g e phi with g = angle/length and phi = edge_phi fint g gap e, for the e, fint, gap the code selects for the location ... *)
+Theorem C07_bendx_fringe_is_edge_map : forall L ang e fint gap q, cos e <> 0 ->
+  bvec (bendx_fringe L ang e fint gap q) = rmvec (edge_map (ang / L) e (edge_phi fint (ang / L) gap e)) (bvec q).
+Proof. exact fringe_is_edge_map. Qed.
+
+(** ... entrance: (_e1, fringe_integral, gap), exactly the matrix R_enter of Dipole.transfer_map (hx = angle/length for length <> 0) *)
+Theorem C07_bendx_fringe_entrance_jacobian : forall b q, bd_L b <> 0 -> cos (bd_e1 b) <> 0 ->
+  let hx := dip_hx (bd_L b) (bd_ang b) in
+  bvec (bendx_entrance true b q) = rmvec (edge_map hx (bd_e1 b) (edge_phi (bd_fint b) hx (bd_gap b) (bd_e1 b))) (bvec q).
+Proof. exact fringe_entrance_is_linear_edge. Qed.
+
+(** ... exit: (_e2, fringe_integral_exit, gap_exit) in the Bmad-X code, (_e2, fringe_integral_exit, gap) in Dipole._transfer_map_exit:
+    the exit kick is the matrix R_exit of Dipole.transfer_map provided gap_exit = gap *)
+Theorem C07_bendx_fringe_exit_jacobian : forall b q, bd_L b <> 0 -> cos (bd_e2 b) <> 0 -> bd_gapx b = bd_gap b ->
+  let hx := dip_hx (bd_L b) (bd_ang b) in
+  bvec (bendx_exit true b q) = rmvec (edge_map hx (bd_e2 b) (edge_phi (bd_fintx b) hx (bd_gap b) (bd_e2 b))) (bvec q).
+Proof. exact fringe_exit_is_linear_edge. Qed.
+
+(** with gap_exit <> gap the two differ at first order (witness: g = 1, e2 = 0, fint_exit = 1/2, gap = 0, gap_exit = 1/10: the
+    Bmad-X vertical exit kick strength is tan(1/20), the entry [3][2] of the linear exit matrix is 0) *)
+Theorem C07_bendx_fringe_exit_gap_refuted :
+  let b := mkbend 1 1 0 0 (1 / 2) (1 / 2) 0 (1 / 10) 0 in
+  fr_hy (bd_L b) (bd_ang b) (bd_e2 b) (bd_fintx b) (bd_gapx b)
+  <> c2 (c3 (edge_map (dip_hx (bd_L b) (bd_ang b)) (bd_e2 b) (edge_phi (bd_fintx b) (dip_hx (bd_L b) (bd_ang b)) (bd_gap b) (bd_e2 b)))).
+Proof. exact fringe_exit_gap_refuted. Qed.
+
+(** (b) the body never touches py and pz; y advances by py * Lp / px_norm and z by beta*L/beta0 - (1+pz) * Lp / px_norm, where Lp
+    is the value the code computes as Lc / sinc(theta_p/2) *)
+Theorem C07_bendx_body_py_pz : forall L ang p0c m q,
+  bpy (bendx_body L ang p0c m q) = bpy q /\ bpz (bendx_body L ang p0c m q) = bpz q.
+Proof. exact body_py_pz. Qed.
+Theorem C07_bendx_body_y_z_advance : forall L ang p0c m q,
+  let x2 := bb_x2 L ang (bx q) (bpx q) (bpy q) (bpz q) in
+  let Lp := bb_Lp_b L ang x2 (bx q) (bpx q) (bpy q) (bpz q) (bb_quadrant L ang q) (bb_zero L ang q) in
+  by_ (bendx_body L ang p0c m q) = by_ q + bpy q * Lp / bb_n (bpy q) (bpz q) /\
+  bz (bendx_body L ang p0c m q) = bz q + bb_beta (bpz q) p0c m * L / bb_beta0 p0c m - (1 + bpz q) * Lp / bb_n (bpy q) (bpz q).
+Proof. exact body_y_advance. Qed.
+
+(** ... and that Lp is the arc length: radius px_norm/g times the angle theta_p by which the direction of motion turns -- for every
+    particle for which the code is defined (length, angle <> 0, real px_norm and phi1, real x2_t2, x2_t2 + x2_t3 <> 0, chord <> 0) *)
+Theorem C07_bendx_body_arc_length : forall L ang, L <> 0 -> ang <> 0 -> forall q, bb_defined L ang q ->
+  let x2 := bb_x2 L ang (bx q) (bpx q) (bpy q) (bpz q) in
+  bb_Lp_b L ang x2 (bx q) (bpx q) (bpy q) (bpz q) (bb_quadrant L ang q) (bb_zero L ang q)
+  = bb_n (bpy q) (bpz q) / bb_g L ang * bb_thp_b L ang x2 (bx q) (bpx q) (bpy q) (bpz q) (bb_quadrant L ang q).
+Proof. exact body_arc_length. Qed.
+
+(** (b) closed orbit: for 0 < length and 0 < |angle| < pi the design particle (0,0,0,0,z,0) is mapped to itself, z included
+    (theta_p = angle, Lp = length) *)
+Theorem C07_bendx_body_design_orbit : forall L ang p0c m z, 0 < L -> ang <> 0 -> - PI < ang -> ang < PI -> 0 < p0c ->
+  bendx_body L ang p0c m (mkb 0 0 0 0 z 0) = mkb 0 0 0 0 z 0.
+Proof. exact body_design_orbit. Qed.
+
+(** ... but NOT for bend angles below -pi: arctan2 returns the chord's polar angle in (-pi, pi], theta_p is off by 4 pi and
+    sinc(theta_p/2) is evaluated 2 pi away.  Witness: length 1, angle -4 (p0c = mc2 = 1): the design particle is displaced by more
+    than 3 m in z (finding F70; reproduced on the implementation by the harness) *)
+Theorem C07_bendx_body_design_orbit_refuted : bz (bendx_body 1 (-4) 1 1 (mkb 0 0 0 0 0 0)) < -3.
+Proof. exact body_design_orbit_refuted. Qed.
+
+(** (d) exact motion in a uniform field.  Frame: reference orbit = circle of radius 1/g about the origin, a particle at (x, px) sits at
+    distance R = 1/g + x from the origin and moves at the angle phi (sin phi = px/px_norm) to the tangent; its orbit has radius
+    r = px_norm/g and centre C = (R - r cos phi) e + r sin phi t (e radial, t tangential).  For every particle for which the code
+    is defined: px' = px_norm sin(phi2) with phi2 = angle + phi1 - theta_p; px' has the closed form of the exact sector map
+    px_norm sin(angle + phi1) - (1 + g x) sin(angle); the exit point lies on the circle of radius r about the centre defined by the
+    ENTRANCE coordinates; and the centre defined by the EXIT coordinates (expressed in the entrance frame: rotation by `angle`) is that
+    same centre: the trajectory is an arc of one circle of radius px_norm/g, which is the motion in a uniform field *)
+Theorem C07_bendx_body_uniform_field : forall L ang, L <> 0 -> ang <> 0 -> forall p0c m q, bb_defined L ang q ->
+  let g := bb_g L ang in let n := bb_n (bpy q) (bpz q) in let r := n / g in
+  let phi1 := bb_phi1 (bpx q) (bpy q) (bpz q) in
+  let x2 := bb_x2 L ang (bx q) (bpx q) (bpy q) (bpz q) in
+  let thp := bb_thp_b L ang x2 (bx q) (bpx q) (bpy q) (bpz q) (bb_quadrant L ang q) in
+  let phi2 := ang + phi1 - thp in
+  let R1 := 1 / g + bx q in let R2 := 1 / g + x2 in
+  let q' := bendx_body L ang p0c m q in
+  bpx q' = n * sin phi2 /\
+  bpx q' = n * sin (ang + phi1) - (1 + g * bx q) * sin ang /\
+  bx q' = x2 /\
+  R2 * R2 - 2 * R2 * (R1 * cos ang - r * cos (ang + phi1)) + R1 * R1 - 2 * R1 * r * cos phi1 = 0 /\
+  (R2 - r * cos phi2) * cos ang - r * sin phi2 * sin ang = R1 - r * cos phi1 /\
+  (R2 - r * cos phi2) * sin ang + r * sin phi2 * cos ang = r * sin phi1.
+Proof. exact body_uniform_field. Qed.
+
+(** torch.arctan2 as modelled returns the polar angle: cos = x/|.|, sin = y/|.| away from the origin *)
+Theorem C07_atan2_polar : forall y x, 0 < x ^ 2 + y ^ 2 ->
+  cos (atan2 y x) = x / sqrt (x ^ 2 + y ^ 2) /\ sin (atan2 y x) = y / sqrt (x ^ 2 + y ^ 2).
+Proof. exact atan2_polar. Qed.
+
+(** cosc(x) = (cos x - 1)/x^2 as documented *)
+Theorem C07_cosc_spec : forall x, x <> 0 -> bx_cosc x = (cos x - 1) / x ^ 2.
+Proof. exact bx_cosc_spec. Qed.
+
+(** (e) the two exit-position formulas c1 and c2 are the same number wherever both are defined, so the mask (|angle + phi1| < pi/2)
+    is a numerical choice, not a semantic one ... *)
+Theorem C07_bendx_c1_eq_c2 : forall L ang x px py pz,
+  bb_gp L ang py pz <> 0 -> bb_t2 L ang x px py pz + bb_t3 ang px py pz <> 0 ->
+  0 <= (cos (ang + bb_phi1 px py pz)) ^ 2 + bb_gp L ang py pz * bb_alpha L ang x px py pz ->
+  bb_c1 L ang x px py pz = bb_c2 L ang x px py pz.
+Proof. exact bb_c1_eq_c2. Qed.
+
+(** ... whereas c2 with the divisor g instead of gp = g/px_norm (the seeded change C07-1) is a different number whenever px_norm <> 1
+    and the two roots differ *)
+Theorem C07_bendx_c2_wrong_divisor_differs : forall L ang x px py pz,
+  bb_g L ang <> 0 -> bb_n py pz <> 0 -> bb_n py pz <> 1 -> bb_t2 L ang x px py pz <> bb_t3 ang px py pz ->
+  bb_t1 L ang x + (bb_t2 L ang x px py pz - bb_t3 ang px py pz) / bb_g L ang <> bb_c2 L ang x px py pz.
+Proof. exact bb_c2_wrong_divisor. Qed.
+
+(** the evaluation chain used by the generated correspondence goals is sound: a property of the values computed step by step (branches
+    given as data, justified by side conditions; arcsin via arctan; sinc, cosc unfolded for angle <> 0) is a property of the literal model *)
+Theorem C07_bendx_chain_sound : forall sel qd fen fex b E0 m x px y py tau delta P,
+  bend_chain sel qd fen fex b E0 m x px y py tau delta P -> P (bend_bmadx_track fen fex b E0 m (mkc x px y py tau delta)).
+Proof. exact bend_chain_sound. Qed.
+
 Print Assumptions C07_sqrt_one_spec.
 Print Assumptions C07_driftx_dz.
 Print Assumptions C07_driftx_straight_line.
@@ -194,3 +311,18 @@ Print Assumptions C07_quadx_r56.
 Print Assumptions C07_quadx_offset_roundtrip.
 Print Assumptions C07_quadx_offset_linear_part.
 Print Assumptions C07_quadx_branches_resolved.
+Print Assumptions C07_bendx_fringe_is_edge_map.
+Print Assumptions C07_bendx_fringe_entrance_jacobian.
+Print Assumptions C07_bendx_fringe_exit_jacobian.
+Print Assumptions C07_bendx_fringe_exit_gap_refuted.
+Print Assumptions C07_bendx_body_py_pz.
+Print Assumptions C07_bendx_body_y_z_advance.
+Print Assumptions C07_bendx_body_arc_length.
+Print Assumptions C07_bendx_body_design_orbit.
+Print Assumptions C07_bendx_body_design_orbit_refuted.
+Print Assumptions C07_bendx_body_uniform_field.
+Print Assumptions C07_atan2_polar.
+Print Assumptions C07_cosc_spec.
+Print Assumptions C07_bendx_c1_eq_c2.
+Print Assumptions C07_bendx_c2_wrong_divisor_differs.
+Print Assumptions C07_bendx_chain_sound.
